@@ -131,6 +131,8 @@ class ConcatenatedLazyIndexer(LazyIndexer):
         if np.isscalar(keep_head):
             # If selection is a scalar, pass directly to appropriate indexer (after removing offset)
             keep_head = len(self) + keep_head if keep_head < 0 else keep_head
+            if not 0 <= keep_head < len(self):
+                raise IndexError(f'Index {keep[0]} is out of bounds for axis 0 with size {len(self)}')
             ind = find_indexer(keep_head)
             out_data = self.indexers[ind][tuple([keep_head - indexer_starts[ind]] + keep_tail)]
         elif isinstance(keep_head, slice):
